@@ -262,3 +262,51 @@ package transaction
 //@   at call(cleanup#3) assert onepc: err != nil && c.mu.undeterminedErr == nil
 //@   at call(cleanup#2) assert async: err != nil && c.mu.undeterminedErr == nil
 //@   at call(cleanup#1) assert twopc: !c.mu.committed && c.mu.undeterminedErr == nil
+
+// ---- C06: releasing the locks of aggressive (fair) locking -----------------------------------------------------------
+// The locks that the previous attempt took and the current one did not need are all rolled back - every one of them and
+// nothing else - with a for-update timestamp not below the committer's and not below the largest conflict timestamp
+// seen, and the locked-key count drops by their number.
+//@ func (*KVTxn) cleanupAggressiveLockingRedundantLocks
+//@   prop C06
+//@   bytes: key
+//@   opaque-callee asyncPessimisticRollback
+//@   loop 1 invariant taken: forall j int :: 0 <= j && j < len(keys) ==> seen(string(keys[j])) && inDom(txn.aggressiveLockingContext.lastRetryUnnecessaryLocks, string(keys[j]))
+//@   loop 1 invariant all: forall k string :: seen(k) ==> exists j int :: 0 <= j && j < len(keys) && string(keys[j]) == k
+//@   loop 1 invariant same: txn.aggressiveLockingContext == old(txn.aggressiveLockingContext) && txn.aggressiveLockingContext.lastRetryUnnecessaryLocks == old(txn.aggressiveLockingContext.lastRetryUnnecessaryLocks)
+//@   at call(asyncPessimisticRollback) assert released: (forall k string :: inDom(txn.aggressiveLockingContext.lastRetryUnnecessaryLocks, k) ==> exists j int :: 0 <= j && j < len(arg_keys) && string(arg_keys[j]) == k) &&
+//@       (forall j int :: 0 <= j && j < len(arg_keys) ==> inDom(txn.aggressiveLockingContext.lastRetryUnnecessaryLocks, string(arg_keys[j]))) &&
+//@       arg_specifiedForUpdateTS >= txn.committer.forUpdateTS && arg_specifiedForUpdateTS >= txn.aggressiveLockingContext.maxLockedWithConflictTS
+//@   ensures count: txn.lockedCnt <= old(txn.lockedCnt)
+
+// Cancelling releases, in addition, every lock the current attempt holds, and leaves aggressive locking mode.
+//@ func (*KVTxn) CancelAggressiveLocking
+//@   prop C06
+//@   bytes: key
+//@   may-panic
+//@   opaque-callee asyncPessimisticRollback resetPrimary
+//@   requires cleanup: true
+//@   loop 1 invariant taken: forall j int :: 0 <= j && j < len(keys) ==> seen(string(keys[j])) && inDom(txn.aggressiveLockingContext.currentLockedKeys, string(keys[j]))
+//@   loop 1 invariant all: forall k string :: seen(k) ==> exists j int :: 0 <= j && j < len(keys) && string(keys[j]) == k
+//@   loop 1 invariant same: txn.aggressiveLockingContext != nil && txn.aggressiveLockingContext == old(txn.aggressiveLockingContext)
+//@   at call(asyncPessimisticRollback) assert released: (forall k string :: inDom(txn.aggressiveLockingContext.currentLockedKeys, k) ==> exists j int :: 0 <= j && j < len(arg_keys) && string(arg_keys[j]) == k) &&
+//@       arg_specifiedForUpdateTS >= txn.committer.forUpdateTS && arg_specifiedForUpdateTS >= txn.aggressiveLockingContext.maxLockedWithConflictTS
+//@   ensures left: txn.aggressiveLockingContext == nil
+
+// The background rollback works on a committer that names the transaction's start timestamp and primary and a for-update
+// timestamp not below the transaction's nor below the one asked for, and rolls back exactly the keys it was given.
+//@ func (*KVTxn) asyncPessimisticRollback$1
+//@   prop C06
+//@   bytes: key
+//@   may-panic
+//@   opaque-callee pessimisticRollbackMutations NewBackofferWithVars
+//@   at call(pessimisticRollbackMutations) assert exactly: arg_mutations.(*PlainMutations).keys == keys && recv == committer
+
+// A failed lock call rolls back, in the background, all keys of the call (the ones found already locked included) with a
+// for-update timestamp not below the call's and not below the largest conflict timestamp it saw.
+//@ func (*KVTxn) lockKeys
+//@   prop C06
+//@   bytes: key
+//@   may-panic
+//@   opaque-callee asyncPessimisticRollback resetPrimary pessimisticLockMutations newTwoPhaseCommitter initKeysAndMutations hashInKeys selectPrimaryForPessimisticLock resetTTLManagerForAggressiveLockingMode filterAggressiveLockedKeys collectAggressiveLockingStats
+//@   at call(asyncPessimisticRollback) assert whole: arg_keys == allKeys && arg_specifiedForUpdateTS >= lockCtx.ForUpdateTS && arg_specifiedForUpdateTS >= lockCtx.MaxLockedWithConflictTS && err != nil
